@@ -175,7 +175,9 @@ class ConnGen:
         if c < 0.25 or title:
             # what a client says about itself: the connection's title and application id
             name = r.choice(['set_app_id', 'set_app_id', 'set_title', 'get_layer_surface'])
-            txt = r.choice(['org.gnome.gedit', 'firefox', 'com.example.App.', 'Untitled 1', '', 'a.b', 'kitty', 'weston-terminal', '.hidden', 'ALLCAPS'])
+            # (application ids that look like connection names included: `connection B` means the connection called B)
+            txt = r.choice(['org.gnome.gedit', 'firefox', 'com.example.App.', 'Untitled 1', '', 'a.b', 'kitty', 'weston-terminal', '.hidden', 'ALLCAPS',
+                            'b', 'B', 'A', 'c'])
             if name == 'get_layer_surface':
                 args = [{'k': 'nil', 'type': ''}, {'k': 'nil', 'type': ''}, {'k': 'nil', 'type': ''}, {'k': 'int', 'v': 2}, {'k': 'str', 's': txt}]
             elif r.random() < 0.1:
